@@ -257,6 +257,26 @@ theorem C20_roundtrip_plain : C20_roundtrip (fun f => plainFields f = true) := b
     exact ⟨ev, h1, h2, h3⟩
 #assert_axioms C20_roundtrip_plain
 
+/-- the path segment of the location a session publishes (`…/scxml/<decimal id>`) names it -/
+theorem C20_location_names_session (sid : Nat) (h : sid < 4294967296) :
+    parseSid (pctDecode (decimal sid)) = some sid ∧
+    locationOf sid = asciiBytes "http://localhost:5555/scxml/" ++ decimal sid :=
+  ⟨parseSid_decimal sid h, rfl⟩
+#assert_axioms C20_location_names_session
+
+/-- (c) at the level of the whole request: the body `send` emits, posted to the path of the
+    published location, delivers `e`'s name and the text of each parameter -/
+theorem C20_roundtrip_request (t : Table) (sid : Nat) (e : OutEvent)
+    (hn : (sidsOf t).Nodup) (hl : (lookup t sid).isSome = true) (h32 : sid < 4294967296)
+    (hd : keysDistinct (sendForm e) = true) (hr : noReservedParam e = true)
+    (hp : plainFields (sendForm e) = true) :
+    ∃ ev, receive t (decimal sid) (sendBody e) = (200, enqueue t sid ev) ∧
+      ev.name = e.name ∧ eventData ev = outData e := by
+  unfold receive
+  rw [parseSid_decimal sid h32]
+  exact C20_roundtrip_plain t sid e hn hl hd hr hp
+#assert_axioms C20_roundtrip_request
+
 /-- C20 for field / parameter names that rocket reads as one key -/
 theorem C20_partial : C20_partial_stmt :=
   ⟨C20_receive_plain, C20_codec_roundtrip, C20_roundtrip_plain⟩
